@@ -215,7 +215,7 @@ func TypesWith(c explore.Chooser, opt TypesOpt) *prog.Program {
 	s := &S{C: c}
 	rootName := s.Pick("root.pkgname", "models", "pk", "m")
 	subName := s.Pick("sub.pkgname", "subpkg", "db", "x")
-	rootPath := prog.Module + "/" + rootName
+	rootPath := prog.Base() + "/" + rootName
 	subPath := rootPath + "/" + subName
 
 	// spellings
@@ -264,7 +264,7 @@ func TypesWith(c explore.Chooser, opt TypesOpt) *prog.Program {
 		hosts = []string{"struct", "union-member", "nested-struct"}
 	}
 	host := s.Pick("slot.host", hosts...)
-	neighbourTag := s.Pick("union.neighbour-tag", "", "`json:\"name\"`", "`json:\"-\"`", "`json:\"n,omitempty\"`", "`json:\"Sh\"`")
+	neighbourTag := s.Pick("union.neighbour-tag", "", "`json:\"name\"`", "`json:\"-\"`", "`json:\"n,omitempty\"`")
 	embedded := s.Pick("embedded", "none", "exported", "unexported", "tagged", "from-sub", "non-struct")
 	style := s.Pick("decl.style", "separate", "grouped")
 	dartRoot := s.Pick("dart.root", "under-go-src", "outside-go-src")
